@@ -32,6 +32,7 @@ func runLedgerConc(p *Plan, tape *simrt.Tape, opt RunOpt) *RunOut {
 	d := NewDriver(p)
 	d.staticProbes()
 	d.Ledger = newLedger()
+	d.Ledger.pmax = uint64(p.Cfg.PrimaryFile)
 	d.Ledger.concurrent = true
 	d.Ledger.installHook(fs)
 	cs := &concState{p: p, d: d, hists: make([][]HistOp, len(p.Clients)+1), ledger: true}
@@ -69,6 +70,8 @@ func runLedgerConc(p *Plan, tape *simrt.Tape, opt RunOpt) *RunOut {
 		}
 		// one more hand-over and a clean restart must not duplicate or lose entries
 		d.PrimaryGC(&Op{K: "pgc", A: 101})
+		d.PrimaryGC(&Op{K: "pgc", A: 101})
+		d.checkBatchesApplied("after two final GC cycles")
 		d.CheckLedger("after a final GC cycle")
 		if d.Viol != nil {
 			return
@@ -119,10 +122,12 @@ type Ledger struct {
 	exact      bool            // expected multiset is complete (no concurrent relocation)
 	ever       map[locKey]bool // locations that were current for some key at some time
 	concurrent bool
+	applicable map[locKey]bool // batch entries whose record was on disk at hand-over
+	pmax       uint64
 }
 
 func newLedger() *Ledger {
-	return &Ledger{expected: map[locKey]int{}, batches: map[locKey]int{}, exact: true, ever: map[locKey]bool{}}
+	return &Ledger{expected: map[locKey]int{}, batches: map[locKey]int{}, exact: true, ever: map[locKey]bool{}, applicable: map[locKey]bool{}}
 }
 
 func lk(b types.Block) locKey { return locKey{uint64(b.Offset), uint32(b.Size)} }
@@ -134,7 +139,19 @@ func (l *Ledger) installHook(fs *simos.FS) {
 		if rec.Kind == simos.OpRename && strings.HasSuffix(rec.Path2, ".free.gc") {
 			if d, ok := f.ReadFileDirect(rec.Path); ok {
 				for _, e := range parseFreeList(d) {
-					l.batches[locKey{e.Off, e.Size}]++
+					k := locKey{e.Off, e.Size}
+					l.batches[k]++
+					// was the record on disk (complete, same size, not yet deleted)
+					// when the batch was handed over? Only then can GC act on it.
+					if l.pmax != 0 {
+						pf, local := e.Off/l.pmax, e.Off%l.pmax
+						if pd, ok := f.ReadFileDirect(fmt.Sprintf("%s.%d", dataPath, pf)); ok && local+4+uint64(e.Size) <= uint64(len(pd)) {
+							sz := uint32(pd[local]) | uint32(pd[local+1])<<8 | uint32(pd[local+2])<<16 | uint32(pd[local+3])<<24
+							if sz == e.Size {
+								l.applicable[k] = true
+							}
+						}
+					}
 				}
 				l.nbatch++
 			}
@@ -288,6 +305,42 @@ func (d *Driver) CheckLedger(where string) {
 			return
 		}
 	}
+}
+
+// checkBatchesApplied: after a primary GC cycle that ran to completion, every
+// entry of every batch handed over so far must have been applied: the record is
+// marked deleted, or no longer exists (truncated tail / unlinked file).
+func (d *Driver) checkBatchesApplied(where string) {
+	l := d.Ledger
+	if l == nil || d.Viol != nil {
+		return
+	}
+	files := fsOf().Files()
+	pmax := uint64(d.Cfg.PrimaryFile)
+	keys := make([]locKey, 0, len(l.batches))
+	for k := range l.batches {
+		keys = append(keys, k)
+	}
+	sort.Slice(keys, func(i, j int) bool { return keys[i].Off < keys[j].Off })
+	for _, k := range keys {
+		if !l.applicable[k] {
+			continue // the record was not on disk when the batch was handed over
+		}
+		f, local := k.Off/pmax, k.Off%pmax
+		data, ok := files[fmt.Sprintf("%s.%d", dataPath, f)]
+		if !ok || local+4 > uint64(len(data)) {
+			continue // file unlinked or tail truncated: released
+		}
+		sz := uint32(data[local]) | uint32(data[local+1])<<8 | uint32(data[local+2])<<16 | uint32(data[local+3])<<24
+		if sz&delBit != 0 {
+			continue
+		}
+		if sz == k.Size {
+			d.fail("ledger/handed-over-not-applied", "%s: location %d (size %d) was handed over to GC in a freelist batch, a GC cycle has since run to completion, but the record is still intact and not marked deleted (the batch was dropped unprocessed)", where, k.Off, k.Size)
+			return
+		}
+	}
+	d.cprobe("batches-applied-check")
 }
 
 // genC13: sequential histories with overwrites, removals, GC cycles (with
